@@ -117,6 +117,21 @@ PROPS = {
             U("c18", "TestTopologyRace", T(30, 2, 300), T(400, 4, 2400), race=True),
         ],
     },
+    "C19": {
+        "level": "exploration",
+        "units": [
+            U("c19", "TestAuditor", T(25, 8, 300), T(400, 16, 2400)),
+            U("c19", "TestMonitor", T(25, 6, 300), T(400, 16, 2400)),
+            U("c19", "TestPublisher", T(400, 2, 300), T(8000, 4, 2400)),
+        ],
+    },
+    "C20": {
+        "level": "exploration",
+        "units": [
+            U("c20", "TestTopology", T(3000, 4, 300), T(60000, 8, 2400)),
+            U("c20", "TestClient", T(6, 12, 400, shrinktime="30s"), T(80, 16, 3000, shrinktime="120s")),
+        ],
+    },
     "C12": {
         "level": "exploration",
         "units": [
